@@ -1809,7 +1809,10 @@ class Scheduler:
         # Record the job as pending, since we're submitting it.
         # Note that if the CSE is disabled, this job might have the same `eval_hash` as a prior
         # one. Such a job must not replace the job other equivalent jobs should collapse into.
-        self._pending_jobs.setdefault((job.eval_hash, job.context_hash), job)
+        # A job that does not record provenance cannot be collapsed into: its CallNode is never
+        # recorded, so a recording twin would inherit a call_hash unknown to the backend.
+        if job.recording_provenance():
+            self._pending_jobs.setdefault((job.eval_hash, job.context_hash), job)
 
         # Submit job.
         if not job.task.script:
